@@ -73,23 +73,27 @@ impl super::Authorizer {
             Some(execution_time).filter(|_| execution_time > Duration::default());
 
         let mut public_key_to_block_id: HashMap<usize, Vec<usize>> = HashMap::new();
+        // like `AuthorizerBuilder::build`, register the external keys of all blocks first:
+        // a scope in block j can name the key of a later block
+        for (i, block) in world.blocks.iter().enumerate() {
+            if let Some(key) = block.external_key.as_ref() {
+                let key = PublicKey::from_proto(key)?;
+                public_key_to_block_id
+                    .entry(authorizer.symbols.public_keys.insert(&key) as usize)
+                    .or_default()
+                    .push(i);
+            }
+        }
         let mut blocks = Vec::new();
         for (i, block) in world.blocks.iter().enumerate() {
-            let token_symbols = if block.external_key.is_none() {
-                authorizer.symbols.clone()
-            } else {
-                let mut token_symbols = authorizer.symbols.clone();
-                token_symbols.public_keys = authorizer.symbols.public_keys.clone();
-                token_symbols
-            };
+            let token_symbols = authorizer.symbols.clone();
 
             let mut block = proto_snapshot_block_to_token_block(block)?;
 
-            if let Some(key) = block.external_key.as_ref() {
-                public_key_to_block_id
-                    .entry(authorizer.symbols.public_keys.insert(key) as usize)
-                    .or_default()
-                    .push(i);
+            // snapshot blocks are stored against the snapshot's tables, third-party blocks
+            // included (they carry no table of their own here)
+            if block.external_key.is_some() {
+                block.symbols = token_symbols.clone();
             }
 
             load_and_translate_block(
